@@ -645,7 +645,9 @@ pub fn worker_main(scn: &Value, report: &Value, shared_path: Option<String>, out
                     content.extend_from_slice(&resolve(&pr[1], report).to_le_bytes());
                 }
                 content.extend(std::iter::repeat(0x11u8).take(step.get("extra").and_then(|v| v.as_u64()).unwrap_or(0) as usize));
-                match fake_file(path, &content) {
+                // "unreadable": opening the path fails (another process' /proc/<pid>/mem is bound over it)
+                let res = if step.get("unreadable").and_then(|v| v.as_bool()).unwrap_or(false) { fake_unreadable(path) } else { fake_file(path, &content) };
+                match res {
                     Ok(()) => {}
                     Err(e) => {
                         tr.emit(json!({"ev":"fake_unavailable","path":path,"error":e}));
@@ -786,7 +788,9 @@ pub fn worker_main(scn: &Value, report: &Value, shared_path: Option<String>, out
     minidump_writer::verif_hooks::set_hook(None);
     CLIENT.with(|c| c.borrow_mut().take());
     for (_, b) in BACKING.lock().unwrap().drain(..) {
-        let _ = std::fs::remove_file(b);
+        if !b.is_empty() {
+            let _ = std::fs::remove_file(b);
+        }
     }
     tr.flush();
 }
@@ -797,19 +801,40 @@ fn unhex(s: &str) -> Vec<u8> {
     (0..s.len() / 2).map(|i| u8::from_str_radix(&s[2 * i..2 * i + 2], 16).unwrap_or(0)).collect()
 }
 static BACKING: Mutex<Vec<(String, String)>> = Mutex::new(Vec::new());
+fn enter_private_mount_ns() -> Result<(), String> {
+    if unsafe { libc::unshare(libc::CLONE_NEWNS) } != 0 {
+        return Err(format!("unshare: {}", std::io::Error::last_os_error()));
+    }
+    let root = std::ffi::CString::new("/").unwrap();
+    if unsafe { libc::mount(std::ptr::null(), root.as_ptr(), std::ptr::null(), libc::MS_REC | libc::MS_PRIVATE, std::ptr::null()) } != 0 {
+        return Err(format!("make-rprivate: {}", std::io::Error::last_os_error()));
+    }
+    Ok(())
+}
+/// Make `path` fail to open for this process only: `/proc/self/mem` bound over it; open() then fails (ESRCH here), which
+/// is checked before the substitution is reported as done.
+fn fake_unreadable(path: &str) -> Result<(), String> {
+    let mut g = BACKING.lock().unwrap();
+    if g.is_empty() {
+        enter_private_mount_ns()?;
+    }
+    let (src, dst) = (std::ffi::CString::new("/proc/self/mem").unwrap(), std::ffi::CString::new(path).unwrap());
+    if unsafe { libc::mount(src.as_ptr(), dst.as_ptr(), std::ptr::null(), libc::MS_BIND, std::ptr::null()) } != 0 {
+        return Err(format!("bind mount: {}", std::io::Error::last_os_error()));
+    }
+    if std::fs::read(path).is_ok() {
+        return Err("the substituted file can still be read".into());
+    }
+    g.push((path.to_string(), String::new()));
+    Ok(())
+}
 fn fake_file(path: &str, content: &[u8]) -> Result<(), String> {
     let mut g = BACKING.lock().unwrap();
     if let Some((_, b)) = g.iter().find(|(p, _)| p == path) {
         return std::fs::write(b, content).map_err(|e: std::io::Error| e.to_string());
     }
     if g.is_empty() {
-        if unsafe { libc::unshare(libc::CLONE_NEWNS) } != 0 {
-            return Err(format!("unshare: {}", std::io::Error::last_os_error()));
-        }
-        let root = std::ffi::CString::new("/").unwrap();
-        if unsafe { libc::mount(std::ptr::null(), root.as_ptr(), std::ptr::null(), libc::MS_REC | libc::MS_PRIVATE, std::ptr::null()) } != 0 {
-            return Err(format!("make-rprivate: {}", std::io::Error::last_os_error()));
-        }
+        enter_private_mount_ns()?;
     }
     let backing = format!("/dev/shm/mdw_fake_{}_{}", std::process::id(), g.len());
     std::fs::write(&backing, content).map_err(|e| e.to_string())?;
@@ -886,6 +911,14 @@ pub fn run_scenario(scn: &Value, workdir: &str, tr: &mut Trace) {
     let mut pretraced = Vec::new();
     for sl in scn.get("pretrace_slots").and_then(|v| v.as_array()).cloned().unwrap_or_default() {
         let tid = t.report["threads"][sl.as_u64().unwrap_or(0) as usize]["tid"].as_i64().unwrap_or(0) as i32;
+        unsafe {
+            if libc::ptrace(libc::PTRACE_SEIZE, tid, 0, 0) == 0 {
+                pretraced.push(tid);
+            }
+        }
+    }
+    if scn.get("pretrace_main").and_then(|v| v.as_bool()).unwrap_or(false) {
+        let tid = t.report["pid"].as_i64().unwrap_or(0) as i32;
         unsafe {
             if libc::ptrace(libc::PTRACE_SEIZE, tid, 0, 0) == 0 {
                 pretraced.push(tid);
